@@ -146,6 +146,7 @@ def _cases(draw, tier):
     mode = 'cbc' if pct(draw) < 7 else ('both' if tier == 'thorough' and pct(draw) < 8 else 'eb')
     salt = draw(strategies.salts)
     conflict = pct(draw) < 50
+    force_pc = False
     inst = draw(strategies.instances(strategies.SIZES[tier]))
     if conflict:
         pair = list(draw(st.sampled_from(CONFLICTS)))
@@ -157,11 +158,15 @@ def _cases(draw, tier):
                 min_len=draw(st.sampled_from([1, 2]))))
             if inst['na'] == 3 and pct(draw) < 70:
                 inst['lt'] = [u if pct(draw) < 70 else t for t, u in zip(inst['lt'], inst['luq'])]
+        elif any(n in ('lsb', 'lmb', 'mincostlsb') for n in pair) and inst['na'] == 3 \
+                and pct(draw) < 40:
+            strategies.load_tradeoff(draw, inst)
+            force_pc = True
         extra = draw(st.sampled_from([0, 0, 1, 2]))
         others = [n for n in draw(st.permutations(strategies.CRIT_NAMES)) if n not in pair]
         names = pair + others[:extra]
         opts = draw(strategies.option_sets(inst, min_crit=len(names), max_crit=len(names),
-                                           names=names))
+                                           names=names, pc=True if force_pc else None))
         # keep the conflicting pair in the drawn relative order: lower position first
         crit = {c[0]: c for c in opts['crit']}
         if crit[pair[0]][1] > crit[pair[1]][1]:
